@@ -123,8 +123,13 @@ def check_sets(scn, res, restarts=False):
 
             for o, s in anc.items():
                 if len(s) > 1:
-                    bad('mixed-ancestors', f'{e["f"]}.process() got a set whose frames descend from different frames '
-                        f'of {o}: { {t: (v["i"], v["seq"]) for t, v in e["inp"].items()} }', e)
+                    # frames of two INCARNATIONS of the origin under one id (the restarted origin numbers its frames from the id its
+                    # first consumer asks for, which a slower sibling branch of the old incarnation may still owe) get a signature of
+                    # their own: it is a recorded limitation of id-only synchronisation, any other mixture is not
+                    kind = 'mixed-incarnations' if len({i for i, _ in s}) > 1 else 'mixed-ancestors'
+
+                    bad(kind, f'{e["f"]}.process() got a set whose frames descend from different frames '
+                        f'of {o}: { {t: (v["i"], v["seq"]) for t, v in e["inp"].items()} }  (incarnation, sequence number)', e)
 
     return viols
 
@@ -1065,7 +1070,7 @@ def check_lifecycle(scn, res):
 
             left = [s for s in res.open_sockets if s[0] == name and s[1] == 0]
 
-            if init_done and left:
+            if left:      # (also when init() itself failed half way: "an exception at any stage")
                 bad('sockets-left-open', f'{name} ended but left {len(left)} socket(s) open: communication not torn down')
 
         elif nshut > 1:
